@@ -105,7 +105,7 @@ class Gen:
         r = self.rng
         kinds = self.o.kinds
         if depth >= self.o.max_depth:
-            kinds = [k for k in kinds if k not in ('seq', 'seqof', 'choice')] or ['bool']
+            kinds = [k for k in kinds if k not in ('seq', 'seqof', 'choice', 'set', 'setof')] or ['bool']
         k = r.choice(kinds)
         if k == 'bool':
             return {'k': 'bool'}
@@ -137,6 +137,16 @@ class Gen:
             if self.o.allow_ext and r.random() < 0.4:
                 ext = [self.member(depth, addition=True) for _ in range(r.choice([0, 1, 1, 2, 3]))]
             return {'k': 'seq', 'root': root, 'ext': ext}
+        if k == 'real':
+            return {'k': 'real'}
+        if k == 'oid':
+            return {'k': 'oid'}
+        if k == 'setof':
+            return {'k': 'setof', 'elem': self.type(depth + 1), 'size': self.size()}
+        if k == 'set':
+            n = r.randint(0, self.o.max_members)
+            root = [self.member(depth) for _ in range(n)]
+            return {'k': 'set', 'root': root, 'ext': None}
         if k == 'choice':
             n = r.randint(1, self.o.max_members)
             root = [(self.name('c'), self.type(depth + 1)) for _ in range(n)]
@@ -253,12 +263,19 @@ class Gen:
                 if len(s) < n:
                     s = s + r.choice(safe) * (n - len(s))
             return s
-        if k == 'seqof':
+        if k == 'real':
+            return r.choice([0.0, 1.0, -1.0, 0.5, 1e300, -1e-300, 5e-324, 1.7976931348623157e308, float('inf'), float('-inf'),
+                             r.random() * 10 ** r.randint(-30, 30), float(r.randint(-10 ** 6, 10 ** 6)), 2.0 ** r.randint(-1074, 1023)])
+        if k == 'oid':
+            first = r.choice([0, 1, 2])
+            second = r.randint(0, 39) if first < 2 else r.choice([0, 39, 40, 47, 48, 999])
+            return '.'.join(str(x) for x in [first, second] + [r.choice([0, 1, 127, 128, 16383, 16384, 2 ** 32]) for _ in range(r.randint(0, 4))])
+        if k in ('seqof', 'setof'):
             n = self.length(t['size'])
             if n > 40 and not cheap(t['elem']):
                 n = 40 if not t['size'] else max(t['size'][0], min(n, 40))
             return [self.value(t['elem']) for _ in range(n)]
-        if k == 'seq':
+        if k in ('seq', 'set'):
             d = {}
             for m in t['root']:
                 self.member_value(m, d)
@@ -420,6 +437,17 @@ def _type_text(t, ind, ctx):
         return 'BIT STRING' + size_text(t['size'])
     if k == 'str':
         return t['kind'] + size_text(t['size'])
+    if k == 'real':
+        return 'REAL'
+    if k == 'oid':
+        return 'OBJECT IDENTIFIER'
+    if k == 'setof':
+        return 'SET%s OF %s' % (size_text(t['size']), type_text(t['elem'], ind + 1, ctx))
+    if k == 'set':
+        items = [member_text(m, ind + 1, ctx) for m in t['root']]
+        if not items:
+            return 'SET { }'
+        return 'SET {\n' + ',\n'.join(pad + '  ' + i for i in items) + '\n' + pad + '}'
     if k == 'seqof':
         return 'SEQUENCE%s OF %s' % (size_text(t['size']), type_text(t['elem'], ind + 1, ctx))
     if k == 'seq':
@@ -469,8 +497,28 @@ def sx_size(s):
     return '%d %s %s' % (lo, 'max' if hi is None else hi, 'T' if ext else 'F')
 
 
+class Unmodelled(Exception):
+    pass
+
+
+def is_modelled(t):
+    """is the type inside the universe of the Lean models (Schema.lean)"""
+    k = t['k']
+    if k in ('real', 'oid', 'set', 'setof'):
+        return False
+    if k == 'seqof':
+        return is_modelled(t['elem'])
+    if k == 'seq':
+        return all(is_modelled(m['t']) for m in t['root'] + (t['ext'] or []))
+    if k == 'choice':
+        return all(is_modelled(at) for _, at in t['root'] + (t['ext'] or []))
+    return True
+
+
 def ty_sx(t):
     k = t['k']
+    if k in ('real', 'oid', 'set', 'setof'):
+        raise Unmodelled(k)
     if k == 'bool':
         return 'bool'
     if k == 'null':
@@ -556,8 +604,14 @@ def canon_py(t, v):
     k = t['k']
     if v is None:
         return None
-    if k in ('bool', 'int', 'enum', 'str', 'null'):
+    if k in ('bool', 'int', 'enum', 'str', 'null', 'oid'):
         return v
+    if k == 'real':
+        return ('real', float(v).hex())
+    if k == 'setof':
+        return sorted((canon_py(t['elem'], e) for e in v), key=repr)
+    if k == 'set':
+        return canon_py(dict(t, k='seq'), v)
     if k == 'octs':
         return bytes(v)
     if k == 'bits':
@@ -598,11 +652,11 @@ def features(t, acc=None):
             bump('int.ext')
         if t['lo'] is None or t['hi'] is None:
             bump('int.semi' if t['con'] else 'int.unconstrained')
-    if k in ('octs', 'bits', 'str', 'seqof') and t['size']:
+    if k in ('octs', 'bits', 'str', 'seqof', 'setof') and t['size']:
         bump(k + '.size' + ('.ext' if t['size'][2] else ''))
-    if k == 'seqof':
+    if k in ('seqof', 'setof'):
         features(t['elem'], acc)
-    if k == 'seq':
+    if k in ('seq', 'set'):
         if t['ext'] is not None:
             bump('seq.ext')
         for m in t['root'] + (t['ext'] or []):
